@@ -21,6 +21,7 @@ def run(ctx):
         if r['why'] in ('status-differs', 'details-differ', 'panic-escaped'):
             classes.setdefault('%s:%s' % (r['lint'], r['why']), []).append(r)
     n = 0
+    full_again = [None]
     for key, rs in sorted(classes.items()):
         r = rs[0]
         obj = r['event']['obj']
@@ -30,8 +31,14 @@ def run(ctx):
         d2 = vlib.drive(ctx, exe, 'sig', sub='confirm%d' % n, extra=['-only', obj])
         rej2, _ = histcommon.validate(ctx, os.path.join(d2, 'history.ndjson'), shards=1)
         if not [x for x in rej2 if x['lint'] == r['lint'] and x['why'] == r['why']]:
-            ctx.notes.append('unreproduced: %s on %s' % (key, obj))
-            continue
+            # not reproducible on that certificate alone: the verdict may depend on what was linted before it
+            # (the batch pass lints the same dummy signature on one certificate after the other) - repeat the whole history once
+            if full_again[0] is None:
+                d3 = vlib.drive(ctx, exe, 'sig', sub='confirm-full')
+                full_again[0], _ = histcommon.validate(ctx, os.path.join(d3, 'history.ndjson'))
+            if not [x for x in full_again[0] if x['lint'] == r['lint'] and x['why'] == r['why'] and x['event']['obj'] == obj]:
+                ctx.notes.append('unreproduced: %s on %s' % (key, obj))
+                continue
         if r['why'] == 'details-differ' and histcommon.stability(ctx, exe, obj, r['lint'], n):
             ctx.notes.append('details of %s vary by themselves on %s: attributed to C05' % (r['lint'], obj))
             continue
